@@ -272,3 +272,43 @@ def diagramAssert (mt : Str → Str → Bool) (content : Option Str) (base : Opt
     | .ok p => applyAll mt g (diagramRules shouldOnly (prefixParsed p base))
 
 end Pta
+
+/-! ### the `DiagramRule` builder as a state machine (property C13)
+
+  `DiagramRule(should_only_rule).from_file(path).with_base_module(name) / .base_module_included_in_module_names()`
+  followed by `assert_applies`. None of the three builder calls raises; `from_file` overwrites `_file_path`,
+  `with_base_module` overwrites `_name_relative_to_root`, and `base_module_included_in_module_names` returns `self`
+  unchanged — it does NOT clear a prefix set earlier. The file is read by `assert_applies`; the model identifies a path
+  with the content `PumlParser.parse` finds there (the file system is a parameter, as for `diagramAssert`). -/
+namespace Pta
+
+structure DiagramRuleState where
+  file : Option Str := none          -- `_file_path`: the CONTENT of the file last passed to `from_file`
+  base : Option Str := none          -- `_name_relative_to_root`
+  shouldOnly : Bool := true          -- `_should_only_rule` (constructor argument)
+deriving DecidableEq, Repr
+
+inductive DiagramRuleOp
+  | fromFile (content : Str)
+  | withBaseModule (p : Str)
+  | baseModuleIncluded
+deriving DecidableEq, Repr
+
+def DiagramRuleState.step (s : DiagramRuleState) : DiagramRuleOp → DiagramRuleState
+  | .fromFile c => { s with file := some c }
+  | .withBaseModule p => { s with base := some p }
+  | .baseModuleIncluded => s
+
+/-- the builder state after a history of calls on `DiagramRule(should_only_rule)` -/
+def diagramRuleStateAfter (shouldOnly : Bool) (ops : List DiagramRuleOp) : DiagramRuleState :=
+  ops.foldl DiagramRuleState.step { shouldOnly := shouldOnly }
+
+/-- `DiagramRule.assert_applies` on a builder state -/
+def DiagramRuleState.assertApplies (mt : Str → Str → Bool) (s : DiagramRuleState) (g : PGraph Str) : DVerdict :=
+  diagramAssert mt s.file s.base s.shouldOnly g
+
+/-- `DiagramRule(should_only_rule).<ops…>.assert_applies(g)` -/
+def runDiagramOps (shouldOnly : Bool) (ops : List DiagramRuleOp) (mt : Str → Str → Bool) (g : PGraph Str) : DVerdict :=
+  (diagramRuleStateAfter shouldOnly ops).assertApplies mt g
+
+end Pta
